@@ -86,3 +86,18 @@ func verifLemmaXORAddrRoundTrip(m *Message, a XORMappedAddress, attr AttrType) (
 
 	return got, err
 }
+
+// verifLemmaMappedAddrRoundTrip (C06): the same for MAPPED-ADDRESS and its siblings (ALTERNATE-SERVER, RESPONSE-ORIGIN,
+// OTHER-ADDRESS all go through MappedAddress.AddToAs / GetFromAs with their own attribute type).
+func verifLemmaMappedAddrRoundTrip(m *Message, a *MappedAddress, t AttrType) (MappedAddress, error) {
+	if err := a.AddToAs(m, t); err != nil {
+		return MappedAddress{}, err
+	}
+	if err := verifLemmaDecodeOfWire(m); err != nil {
+		return MappedAddress{}, err
+	}
+	var got MappedAddress
+	err := got.GetFromAs(m, t)
+
+	return got, err
+}
